@@ -79,6 +79,14 @@ CHECKS = {
    text='Cli.tla decodes an option record into an argument vector and the documented stage list (order, model and key functions each stage must receive, separators, exit status); TLC checks stage order, model-everywhere, exactly one layout stage and formatting-last over the whole option space (MC_CliOpts) and exports every option set with its plan; a seeded sample is replayed: the harness executes the exported plan with library calls and runs the real command (in-process main(), stdin or 1-2 files, 4% real subprocesses); TLC judges byte equality, exit status, one output per input graph, content invariance under formatting options, content preservation without normalisation options and the fixed-point clause.',
    note='stage semantics are the library functions (covered by their own properties); F17 and F19 are open known findings with specification predicates as signatures; the fixed-point clause is judged on single-stream runs; random keys: exit status only',
    technique='TLA+ model of option decoding and pipeline plumbing model-checked by TLC + spec-to-code replay of exported plans, judged by TLC'),
+ 'C09': dict(engine='stream', design='5 C09, 4.10',
+   text='Stream.tla defines the containers (one string, lines without / with terminators, a text-mode file) as feeders of the same lexer/parser and the stream grammar (COMMENT* Node)*; TLC checks that every text up to a bound over an alphabet with LF, CR, NEL, VT, comments and node syntax has the same outcome in every container, that only LF/CRLF/CR end lines, and that sequences of trees written with every separator (and to a file) read back equal with comments attached to the following graph (MC_Stream); the real loads / load / iterdecode / iterparse on strings, line lists, StringIO and real files, and dumps / dump round trips, are judged by TLC against the specification outcome.',
+   note='the OS is not modelled (a file is a text split at LF, CRLF, CR); error positions are C07; graphs in the dumps clause must come from well-formed trees under the model (specification predicate)',
+   technique='TLA+ spec of containers and stream framing model-checked by TLC + TLC trace validation of recorded load/dump executions'),
+ 'C17': dict(engine='purity', design='5 C17, 4.11',
+   text='Purity.tla is a history machine over a pool of shared objects with 23 API operations: TLC checks the frame conditions (a pure call changes no pool object, an in-place call changes only its target) and that results are a function of argument values on every history up to a bound, and generates call histories in simulation mode; each history is replayed on real objects under four hash seeds and inside a worker process with snapshots of every pool object before and after every call; TLC validates the frame conditions on the recorded snapshots, function-of-arguments across the history, and identity of all runs; the command is run as a subprocess under four hash seeds and outputs compared by TLC.',
+   note='hash seeds and processes cannot be modelled: identical histories are replayed and compared; projection excludes the iteration order of the marker dictionary (O6); aliasing that only a later user mutation of a result would reveal is not gated',
+   technique='TLA+ history machine (frame conditions) model-checked by TLC + replay of TLC-simulated call histories under several hash seeds/processes, validated by TLC'),
 }
 NOT_YET = 'check not built yet (build in progress, see DESIGN.md section 11)'
 
